@@ -3,7 +3,7 @@
     implementation returned is given by the PATH at which the harness found that very object (identity) inside the instance
     (EAt), or literally (EInst) when it is not part of it.  Errors are compared strictly: AttributeError = Err Reject,
     anything else = Err Crash. *)
-From OfxV Require Import Base.Prelude Model.Schema Model.Convert Model.ConvertCases Model.Shortcuts Model.Lookup.
+From OfxV Require Import Base.Prelude Model.Schema Model.Convert Model.ConvertCases Model.Shortcuts Model.Lookup Model.LookupWalk.
 Local Open Scope string_scope.
 
 Inductive pstep := PF (k : string) | PM (n : nat).
@@ -43,12 +43,24 @@ Definition res_matches (names : list (string * N)) (root : hinst) (m : result (p
   | _, _ => false
   end.
 
-Inductive lcase := LCase (i : hinst) (names : list (string * N)) (qs : list (string * result eobj)).
+(** populated = built by the constructor (as opposed to the blank instance cls.__new__(cls)) *)
+Inductive lcase := LCase (populated : bool) (i : hinst) (names : list (string * N)) (qs : list (string * result eobj)).
+
+(** the side conditions of the path-walk theorems hold of a constructor-built instance of a class carrying such a shortcut *)
+Definition walk_hyps_ok (S : schema) (tb : ltab) (i : hinst) : bool :=
+  let cn := icls hval i in
+  forallb (fun n => match class_attr tb cn n with
+                    | Some (KShortcut (SCWrapped _ _ _)) => wrapped_ok_b hval S tb n i
+                    | Some (KShortcut (SCConcat _ _)) => concat_ok_b hval S tb n i
+                    | Some (KShortcut (SCTruthyVia _ _)) => truthy_ok_b hval S tb n i
+                    | _ => true
+                    end) ["statements"; "securities"].
 
 (** every query answered alike, and the instance is in the domain of the theorems *)
 Definition lcase_ok (fx : bool) (S : schema) (tb : ltab) (c : lcase) : bool :=
   match c with
-  | LCase i names qs =>
+  | LCase pop i names qs =>
     lk_wf_b hval S i
+    && (if pop then walk_hyps_ok S tb i else true)
     && forallb (fun q => res_matches names i (getattr_m hval fx S tb i (fst q)) (snd q)) qs
   end.
